@@ -43,15 +43,37 @@ Definition invalid_struct : cjson_struct := ((None, None), mkND c_cJSON_Invalid 
 Definition patch_root_remove (object : ptr) : M unit := overwrite_item object invalid_struct.
 
 (** apply_patch, path "", after [value] has been obtained (ADD / REPLACE: [value = cJSON_Duplicate(value, 1)];
-    COPY: a duplicate; MOVE: the detached item):
+    COPY: a duplicate; MOVE: the detached item) — the code of /repo AFTER the repair f953f57 (both sites alike):
 
         overwrite_item(object, *value);
         cJSON_free(value);                       // the shell of the duplicated / moved value
         value = NULL;
-        if (object->string != NULL) { cJSON_free(object->string); object->string = NULL; }
+        if (object->string != NULL)
+        {
+            if (!(object->type & cJSON_StringIsConst)) { cJSON_free(object->string); }
+            object->string = NULL;
+        }
+        object->type &= ~cJSON_StringIsConst;
 
     ([*value] reads the whole struct of the replacement: both parts) *)
 Definition patch_root_overwrite (object value : ptr) : M unit :=
+  l <~ ld_lnk value ;;
+  d <~ ld_dat value ;;
+  overwrite_item object (l, d) ;;;
+  cJSON_free value ;;;
+  k <~ get_key object ;;
+  when (negb (is_null k))
+       (t <~ get_type object ;;
+        when (negb (has_flag t c_cJSON_StringIsConst)) (k2 <~ get_key object ;; cJSON_free k2) ;;;
+        set_key object None) ;;;
+  t2 <~ get_type object ;;
+  set_type object (clear_flag t2 c_cJSON_StringIsConst).
+
+(** the same sequence as it was BEFORE the repair (the pinned code): the key of the new root is released without
+    looking at cJSON_StringIsConst, the flag stays
+
+        if (object->string != NULL) { cJSON_free(object->string); object->string = NULL; }  *)
+Definition patch_root_overwrite_pinned (object value : ptr) : M unit :=
   l <~ ld_lnk value ;;
   d <~ ld_dat value ;;
   overwrite_item object (l, d) ;;;
@@ -67,19 +89,20 @@ Definition out_heap {A} (o : out (A * heap)) : option heap :=
 
 (** * the forest side *)
 
-(** the data of the replacement as it sits in the root afterwards: [object->string = NULL] *)
-Definition rd_no_key (d : rdata) : rdata := mkRD (rd_type d) (rd_vstr d) (rd_vint d) (rd_vdbl d) None (rd_ref d).
+(** the data of the replacement as it sits in the root afterwards:
+    [object->string = NULL; object->type &= ~cJSON_StringIsConst] *)
+Definition rd_unnamed (d : rdata) : rdata :=
+  mkRD (Z.land (rd_type d) (Z.lnot c_cJSON_StringIsConst)) (rd_vstr d) (rd_vint d) (rd_vdbl d) None (rd_ref d).
 (** the data of [invalid] *)
 Definition rd_invalid : rdata := mkRD c_cJSON_Invalid None 0 dzero None None.
 
-(** the key of the node, if any, is an owned string (what [overwrite_item] and the final
-    [cJSON_free(object->string)] take for granted) *)
+(** the key of the node, if any, is an owned string (what [overwrite_item] takes for granted of the ROOT) *)
 Definition key_owned (d : rdata) : Prop := is_const d = true -> rd_key d = None.
 
 (** the forest after [patch_root_overwrite r x]: the root [r] carries the replacement's data (without key)
     and the replacement's children; the tree of [r] and the shell [x] are gone *)
 Definition overwrite_root (r x : positive) (dx : rdata) (csx : list tree) (F : forest) : forest :=
-  T r (rd_no_key dx) csx :: remove_root x (remove_root r F).
+  T r (rd_unnamed dx) csx :: remove_root x (remove_root r F).
 (** the forest after [patch_root_remove r] *)
 Definition invalidate_root (r : positive) (F : forest) : forest := T r rd_invalid [] :: remove_root r F.
 
@@ -124,7 +147,7 @@ Definition owc_dr : rdata := mkRD (Z.lor c_cJSON_Number c_cJSON_StringIsConst) N
 Definition owc_F : forest := [T 1 owc_dr []; ow_num 10 5 None].
 Definition owc_heap : heap := heap_of owc_F ow_St [102%positive] 1000.
 
-(** a REPLACEMENT whose key is a constant: what cJSON_Duplicate returns for a patch member added with
+(** a REPLACEMENT whose key is a constant (fine with the repaired code, fatal with the pinned one): what cJSON_Duplicate returns for a patch member added with
     cJSON_AddItemToObjectCS(patch, "value", ...) — it keeps the caller's block 110 and the flag
     cJSON_StringIsConst (cJSON_Duplicate copies the key only when the flag is clear) *)
 Definition owk_dx : rdata := mkRD (Z.lor c_cJSON_Number c_cJSON_StringIsConst) None 5 (dbl_of_int 5) (Some 110%positive) None.
